@@ -48,13 +48,72 @@ def drop_error_exits(body):
     return re.sub(r'if\s*\(\s*error\s*\)\s*\{[^{}]*\}', ';', body)
 
 
+# Where a call must stand (gap report 2, C02 critical check: the order was read textually, so `if (cond) flock(...)`, a
+# `nolock` parameter or an `#ifdef __OpenBSD__` around the flock gave the same list).  Brace depth inside its function and the
+# exact text of the statement that holds the call; anything else raises.
+PLACE = {
+    'FOpenRd': (0, r'sf->flock = open\(path, O_RDONLY \| O_CLOEXEC\);'),
+    'FLockEx': (0, r'if \(flock\(sf->flock, LOCK_EX\) == -1\) \{'),
+    'FTruncate': (0, r'fh = fopen\(sf->path, "we"\);'),
+    'FWrite': (0, r'n = fwrite\([^;]*\);'),
+    'FFlushClose': (0, r'if \(fh != NULL && fclose\(fh\) == EOF && !error\) \{|if \(fh != NULL\) fclose\(fh\);'),
+    'FUnlock': (1, r'flock\(sf->flock, LOCK_UN\);'),
+    'FCloseFd': (1, r'close\(sf->flock\);'),
+}
+# the only block the unlock / close of the lock descriptor may stand in
+UNLOCK_GUARD = r'if \(sf->flock != -1\) \{\s*flock\(sf->flock, LOCK_UN\);\s*close\(sf->flock\);\s*\}'
+
+
+def statement_around(body, start, end):
+    a = max(body.rfind(';', 0, start), body.rfind('{', 0, start), body.rfind('}', 0, start), body.rfind('\n#', 0, start))
+    if body.startswith('\n#', a):           # a preprocessor line ends at its newline
+        a = body.find('\n', a + 1)
+    b = end
+    depth = 0
+    while b < len(body):
+        c = body[b]
+        if c == '(':
+            depth += 1
+        elif c == ')':
+            depth -= 1
+        elif c in ';{' and depth <= 0:
+            break
+        b += 1
+    return re.sub(r'^(?:\w+: )+', '', re.sub(r'\s+', ' ', body[a + 1:b + 1]).strip())    # labels dropped
+
+
+def check_place(name, body, ctor, start, end):
+    if ctor not in PLACE:
+        return
+    depth, pat = PLACE[ctor]
+    d = body.count('{', 0, start) - body.count('}', 0, start)
+    stmt = statement_around(body, start, end)
+    if ctor == 'FFlushClose' and stmt.startswith('if (fh != NULL) fclose'):
+        pass
+    elif d != depth:
+        raise ValueError('%s: %s stands at brace depth %d, expected %d (a conditional lock/unlock/truncate is not the modelled order)' % (name, ctor, d, depth))
+    if not re.fullmatch(pat, stmt):
+        raise ValueError('%s: the statement holding %s is not the expected one: %r' % (name, ctor, stmt))
+    if ctor in ('FUnlock', 'FCloseFd') and not re.search(UNLOCK_GUARD, body):
+        raise ValueError('%s: %s is not inside `if (sf->flock != -1) { flock(LOCK_UN); close(); }`' % (name, ctor))
+
+
+def check_preprocessor(name, body):
+    for line in body.split('\n'):
+        t = line.strip()
+        if t.startswith('#') and t not in ('#ifdef ROBSD_VERIF', '#endif'):
+            raise ValueError('%s: preprocessor line %r inside a function on the lock path (only the ROBSD_VERIF points are expected)' % (name, t))
+
+
 def path_of(fns, name, stack=()):
     if name in stack:
         raise ValueError('recursion through %s' % name)
+    check_preprocessor(name, fns[name])
     body = drop_error_exits(fns[name])
     found = []
     for ctor, pat in TOKENS:
         for m in re.finditer(pat, body):
+            check_place(name, body, ctor, m.start(), m.end())
             found.append((m.start(), m.end(), ctor, m.groups()))
     for other in fns:
         if other == name:
